@@ -743,9 +743,9 @@ def check_const_property(c, r):
         return ('one-state-per-time', '%d states for %d times' % (len(r['sols']), len(t)))
     if r['sols'] != [float(k) for k in range(len(t))]:
         return ('state-sequence', 'states are not the successive stepper outputs')
-    if not r['taus_same'] or r['ncalls'] != (len(t) - 1 + (1 if c['fail_at'] is not None and c['fail_at'] < r['ncalls'] and
-                                                             len(t) - 1 == c['fail_at'] else 0)):
-        return ('stepper-calls', 'stepper called %d times with tau unchanged=%s for %d times' % (r['ncalls'], r['taus_same'], len(t)))
+    calls_ok = r['ncalls'] == len(t) - 1 or (c['fail_at'] is not None and r['ncalls'] == len(t) and r['ncalls'] - 1 == c['fail_at'])
+    if not r['taus_same'] or not calls_ok:
+        return ('stepper-calls', 'stepper called %d times (tau unchanged: %s) for %d returned times' % (r['ncalls'], r['taus_same'], len(t)))
     t0, tau, te = Fr(c['t0']), Fr(c['tau']), Fr(c['t_end'])
     for k, tk in enumerate(t):
         if abs(Fr(tk) - (t0 + k * tau)) > 4 * EPS * (abs(t0) + k * abs(tau)):
@@ -836,8 +836,6 @@ def gen_adaptive_cases(ctx):
             events.append({'diff': diff})
             mev.append((Fr(r), Fr(praw)))
         # choose t_end among the times the model visits (landing exactly) or in between
-        full, _ = adaptive_mirror(Fr(t0), Fr(tau0), Fr(10 ** 9), mev + [(Fr(1, 2), Fr(1))] * 0)
-        visited = adaptive_mirror(Fr(t0), Fr(tau0), Fr(10 ** 9), mev)[1]
         tms = [Fr(t0)]
         t, tau = Fr(t0), Fr(tau0)
         for e in mev:
@@ -995,3 +993,371 @@ Definition newton_agrees (c : (Q*Q*Q*Q*Q) * (Q*Q*nat*nat) * option Q) : bool :=
 Fixpoint badidx {T} (f : T -> bool) (k : nat) (cs : list T) : list nat :=
   match cs with [] => [] | c :: cs' => if f c then badidx f (S k) cs' else k :: badidx f (S k) cs' end.
 '''
+
+
+def gen_newton_cases(ctx):
+    rng = ctx.rng
+    cases = []
+    for _ in range(150 if ctx.tier == 'thorough' else 40):
+        n = rng.randint(1, 5)
+        L, g = random_system(rng, n, rng.random() < 0.3)
+        cases.append(dict(kind='newton', n=n, L=L, g=g, Lkind=rng.choice(['dense', 'sparse']),
+                          nl=rng.choice([0.0, 0.125, 1.0, 4.0]), x0=[dy(rng, -4, 4, 8) for _ in range(n)],
+                          atol=10.0 ** -rng.randint(2, 12), rtol=rng.choice([0.0, 1e-3, 1e-6, 1e-10]),
+                          maxiter=rng.choice([0, 1, 2, 3, 5, 20, 100]), freeze=rng.randint(1, 4)))
+    return cases
+
+
+def check_newton_property(c, r):
+    if r['status'] != 'Ok':
+        return ('raises-' + r['status'], 'newton raised %s' % r.get('msg'))
+    pts = r['Fpts']
+    if not pts or pts[0] != c['x0']:
+        return ('first-eval', 'first residual evaluation is not at x0')
+    if not r['x0_unchanged']:
+        return ('x0-mutated', 'newton modified the caller\'s initial guess in place')
+    nrm = [norm2(exact_F(c, frl(p))) for p in pts]
+    target = max(c['atol'], c['rtol'] * nrm[0])
+    sl = 1e-9
+    if r['raised']:
+        if len(pts) != c['maxiter'] + 1:
+            return ('raise-count', 'raised after %d residual evaluations with maxiter=%d' % (len(pts), c['maxiter']))
+        for k in range(c['maxiter']):
+            if nrm[k] < target * (1 - sl):
+                return ('raised-although-converged', 'iterate %d had residual %.3e < target %.3e but newton raised' % (k, nrm[k], target))
+        iters = c['maxiter']
+    else:
+        if r['x'] != pts[-1]:
+            return ('last-eval', 'the returned point is not the last point the residual was evaluated at')
+        if nrm[-1] >= target * (1 + sl) + 1e-300:
+            return ('tolerance', 'returned a point with residual %.3e >= max(atol, rtol*|F(x0)|) = %.3e' % (nrm[-1], target))
+        if len(pts) > c['maxiter']:
+            return ('maxiter', '%d iterations with maxiter=%d' % (len(pts) - 1, c['maxiter']))
+        for k in range(len(pts) - 1):
+            if nrm[k] < target * (1 - sl):
+                return ('late-return', 'iterate %d already met the tolerance' % k)
+        iters = len(pts) - 1
+    expj = [pts[k] for k in range(iters) if k % c['freeze'] == 0]
+    if r['Jpts'] != expj:
+        return ('freeze-jac', 'Jacobian evaluated at iterations other than 0, freeze_jac, 2 freeze_jac, ...')
+    return None
+
+
+def gen_method_cases(ctx, methods, skip):
+    rng = ctx.rng
+    cases = []
+    for name, m in methods.items():
+        if name in skip:
+            continue
+        for rep in range(3 if ctx.tier == 'thorough' else 1):
+            # y' = M^-1 c
+            n = 2
+            Mkind = rng.choice(['dense', 'sparse'] + (['none'] if m['kind'] == 'dirk' else []))
+            M = None if Mkind == 'none' else spd_matrix(rng, n)
+            cvec = [dy(rng, 1, 8, 8) * rng.choice([1, -1]) for _ in range(n)]
+            tau = rng.choice([0.25, 0.125, 0.0625])
+            nst = rng.randint(2, 8)
+            cases.append(dict(kind='method', what='const_rhs', name=name, Mkind=Mkind, M=M, L=[[0.0] * n for _ in range(n)],
+                              g=cvec, n=n, nl=0.0, x=[dy(rng, -2, 2, 8) for _ in range(n)], tau=tau, t0=dy(rng, -1, 1, 8),
+                              t_end=None, nst=nst, tol=None, adaptive_api=m['adaptive']))
+            cases[-1]['t_end'] = cases[-1]['t0'] + nst * tau
+            if m['adaptive']:
+                n = rng.randint(1, 3)
+                L, g = random_system(rng, n, rng.random() < 0.5)
+                Mkind = rng.choice(['dense', 'sparse'] + (['none'] if m['kind'] == 'dirk' else []))
+                cases.append(dict(kind='method', what='adaptive', name=name, Mkind=Mkind, M=None if Mkind == 'none' else spd_matrix(rng, n),
+                                  L=L, g=g, n=n, nl=rng.choice([0.0, 0.0, 0.125]), x=[dy(rng, -2, 2, 8) for _ in range(n)],
+                                  tau=rng.choice([0.1, 0.01, 0.5]), t0=rng.choice([0.0, 0.25, -1.0]), t_end=None,
+                                  tol=10.0 ** -rng.randint(2, 5), step_factor=rng.choice([None, 0.8, 0.95]),
+                                  adaptive_api=True, want_steps=True))
+                cases[-1]['t_end'] = cases[-1]['t0'] + rng.choice([0.5, 1.0, 0.3])
+    return cases
+
+
+def check_method_property(c, r, methods):
+    m = methods[c['name']]
+    if r['status'] != 'Ok':
+        return ('raises-' + r['status'], 'solvers.%s raised: %s' % (c['name'], r.get('msg')))
+    t = r['times']
+    if len(r['sols']) != len(t):
+        return ('one-state-per-time', '%d states for %d times' % (len(r['sols']), len(t)))
+    if c['what'] == 'const_rhs':
+        n = c['n']
+        if len(t) != c['nst'] + 1 or any(abs(Fr(t[k]) - (Fr(c['t0']) + k * Fr(c['tau']))) > 0 for k in range(len(t))):
+            return ('times', 'constant-step times %s are not t0 + k tau' % t[:6])
+        Mi = np.linalg.inv(np.array(c['M'])) if c['M'] is not None else np.eye(n)
+        v = Mi @ np.array(c['g'])
+        exact = np.array(c['x']) + (t[-1] - t[0]) * v
+        cond = np.linalg.cond(np.array(c['M'])) if c['M'] is not None else 1.0
+        bound = c['nst'] * m['s'] * 256 * n * float(EPS) * cond * (norm2(c['x']) + abs(t[-1] - t[0]) * norm2(v) + 1)
+        bound += r['newton_skipped'] * 1e-4 * np.linalg.norm(Mi, 2) * 2
+        err = norm2(np.array(r['sols'][-1]) - exact)
+        if err > bound:
+            return ('const-rhs-exact', "y' = M^-1 c is not integrated exactly: error %.3e > %.3e after %d steps" % (err, bound, c['nst']))
+        return None
+    # adaptive run of the shipped method
+    if t[0] != c['t0'] or any(t[k + 1] <= t[k] for k in range(len(t) - 1)):
+        return ('times-increasing', 'times not strictly increasing from t0: %s' % t[:8])
+    if t[-1] < c['t_end']:
+        return ('end-time', 'last time %r < t_end %r' % (t[-1], c['t_end']))
+    sf = 0.9 if c.get('step_factor') is None else c['step_factor']
+    q = m['err_order']
+    k = 0
+    steps = r['steps']
+    for i, st in enumerate(steps):
+        x = np.array(st['x'])
+        if st['x_est'] is None:
+            return ('embedded-missing', 'adaptive run made a step without error estimate')
+        d = c['tol'] + c['tol'] * abs(x)
+        rr = np.linalg.norm((np.array(st['x_est']) - np.array(st['x_new'])) / d) / np.sqrt(len(x))
+        if rr == 0:
+            rr = 1e-15
+        acc = k + 1 < len(t) and r['sols'][k + 1] == st['x_new'] and abs(t[k + 1] - (t[k] + st['tau'])) <= 4 * float(EPS) * (abs(t[k]) + st['tau'])
+        border = abs(rr - 1) < 1e-12
+        if not border:
+            if rr <= 1 and not acc:
+                return ('accept-rule', 'step %d with error ratio %.6g <= 1 was rejected' % (i, rr))
+            if rr > 1 and acc and r['sols'][k] != st['x_new']:
+                return ('accept-rule', 'step %d with error ratio %.6g > 1 was accepted' % (i, rr))
+        if acc and (rr <= 1 or border):
+            k += 1
+        if i + 1 < len(steps):
+            f = steps[i + 1]['tau'] / st['tau']
+            fexp = min(5.0, max(0.2, sf * rr ** (-1 / q)))
+            if not (0.2 * (1 - 1e-12) <= f * 2 ** 0 <= 5 * (1 + 1e-12)) and not any(abs(f * 2 ** j - fexp) <= 1e-9 * fexp for j in range(1, 60)):
+                return ('step-factor', 'step size changed by %.6g (outside [0.2, 5])' % f)
+            if not border and not any(abs(f * 2 ** j - fexp) <= 1e-9 * fexp for j in range(0, 60)):
+                return ('step-factor', 'step size changed by %.6g, expected min(5, max(0.2, %.3g * r^(-1/%d))) = %.6g' % (f, sf, q, fexp))
+    if k != len(t) - 1:
+        return ('accept-rule', '%d times returned for %d accepted steps' % (len(t) - 1, k))
+    return None
+
+
+# ---------------------------------------------------------------------------
+# run
+# ---------------------------------------------------------------------------
+
+def strip(c):
+    return {k: v for k, v in c.items() if k not in ('mev', 'slack', 'exact', 'family', 'method', 'stiff', 'what', 'nst')}
+
+
+def run_tasks(ctx, tasks, batch=150):
+    res = []
+    for i in range(0, len(tasks), batch):
+        res += ctx.impl.run(DRIVER, {'tasks': [strip(t) for t in tasks[i:i + batch]]})['results']
+    return res
+
+
+def coq_family(ctx, prefix, header, fn, items, what, chunk=150):
+    """items: list of (case index, coq text, replay dict).  Appends one deliberately wrong copy
+    of the harness's choosing is done by the caller.  Returns list of disagreeing items."""
+    files, chunks = [], []
+    for n, i in enumerate(range(0, len(items), chunk)):
+        ch = items[i:i + chunk]
+        chunks.append(ch)
+        files.append(('%s_%03d' % (prefix, n), header + 'Definition cases := [\n' + ';\n'.join(t[1] for t in ch) +
+                      '].\nEval vm_compute in badidx %s 0 cases.\n' % fn))
+    bad = []
+    for (name, ok, out), ch in zip(ctx.coq_eval_many(files), chunks):
+        ctx.obligations += 1
+        idx = parse_coq_list_of_nat(out) if ok else None
+        if idx is None:
+            ctx.broken.append('case file %s (%s) did not evaluate: %s' % (name, what, out[-400:]))
+            continue
+        ctx.discharged += 1
+        bad += [ch[k] for k in idx]
+    return bad
+
+
+def run(ctx):
+    ctx.obligations_stage(PROPS, extra_targets=['C12/Examples.vo'])
+    ctx.assumptions += [
+        'model: hand transcription of newton, dirk_step, rosenbrock_step, _constant_step_method, _adaptive_step_method '
+        '(solvers.py:335-534, 684-707) into Gallina (coq/C12/Model.v); vectors are elements of a commutative ring '
+        '(the coordinate ring K^n, scalars embedded), M/F/J/linear and nonlinear solves are black boxes with stated contracts',
+        'tables: translate/tableaux.py (fail-closed ast walker) executes the coeffs_* definitions of the current solvers.py; '
+        'documented orders from the source comments, else translate/tableaux_orders.json (trusted data)',
+        'order conditions are checked with the rounding allowance max(64 eps, 8*10^-d) * sum|terms| (d = digits of the '
+        'shortest truncated literal of the table); exact satisfaction by the intended irrational coefficients is not claimed',
+        'idealisations: real arithmetic in the theorems; the real power r**(-1/q) is an input of the driver model; '
+        'termination of the adaptive loop is not proved (no iteration cap in the code)',
+        'float comparisons use bounds derived from operation counts (module docstring of harness/props/c12.py)',
+    ]
+    methods = stage_tables(ctx)
+    if methods is None:
+        return ctx.finish()
+    flagged = {v[0].split(':')[-1] for v in ctx.violations} | {h.split(':')[-1] for h in ctx.known_hits}
+    tie_tables(ctx, methods)
+
+    # ---- one step -------------------------------------------------------
+    scases, sdist = gen_step_cases(ctx, methods)
+    sres = run_tasks(ctx, scases)
+    step_items = {'dirk': [], 'ros': []}
+    maxdev = 0.0
+    nprop = 0
+    for k, (c, r) in enumerate(zip(scases, sres)):
+        ctx.count(('step', k, c['method'], c['family']))
+        if c['method'] in flagged:
+            pass        # a table with broken order conditions still has to satisfy its stage equations
+        bad = (check_dirk_property if c['kind'] == 'dirk' else check_ros_property)(c, r)
+        if bad:
+            nprop += 1
+            ctx.report('impl:%s:%s:%s' % (c['kind'], bad[0], c['method'] if c['method'] != 'user' else 'user-tableau'),
+                       '%s_step, %s, M=%s, n=%d, tau=%g: %s' % (c['kind'] if c['kind'] == 'dirk' else 'rosenbrock', c['method'],
+                                                                  c['Mkind'], c['n'], c['tau'], bad[1]),
+                       {'case': strip(c), 'impl': r, 'how': 'harness/impl/c12_driver.py task kind %s' % c['kind']})
+        for fn, txt, dev in step_model_cases(c, r):
+            step_items[fn].append((k, txt, None))
+            maxdev = max(maxdev, dev)
+    for fn in ('dirk', 'ros'):
+        items = step_items[fn]
+        if not items:
+            ctx.broken.append('no %s step case reached the model comparison' % fn)
+            continue
+        # self-test of the comparison: the first case again with the implementation's value shifted by 1/1000
+        k0, t0, _ = items[0]
+        items = items + [(-1, t0.replace('), (((', '), (((', 1), None)]
+        wrong = t0.rsplit('), (', 1)
+        bad = coq_family(ctx, 'C12_%s' % fn, STEP_HEADER, fn + '_agrees', items, fn + '_step correspondence')
+        seen = set()
+        for (k, txt, _) in bad:
+            if k < 0 or k in seen:
+                continue
+            seen.add(k)
+            c, r = scases[k], sres[k]
+            ctx.broken.append('correspondence %s_step model<->impl differs on case #%d (%s)' % (fn, k, c['method']))
+            pb = (check_dirk_property if fn == 'dirk' else check_ros_property)(c, r)
+            ctx.report('tie:%s_step:%s' % (fn, c['method'] if c['method'] != 'user' else 'user-tableau'),
+                       'one step of %s on a diagonal linear system differs from the exact-arithmetic model by more than the '
+                       'derived rounding bound%s' % (c['method'], (': ' + pb[1]) if pb else
+                                                      ' (stage equations still hold to the Newton tolerance on this input)'),
+                       {'case': strip(c), 'impl': r}, found_input=bool(pb))
+        ctx.cov['disagreements_checked'] += len(seen)
+    ctx.cov['step_max_deviation_over_bound'] = maxdev
+
+    # ---- drivers and newton ---------------------------------------------
+    ccases = gen_const_cases(ctx)
+    acases = gen_adaptive_cases(ctx)
+    ncases = gen_newton_exact_cases(ctx)
+    gcases = gen_newton_cases(ctx)
+    skip = set(flagged)
+    mcases = gen_method_cases(ctx, methods, skip)
+    allc = ccases + acases + ncases + gcases + mcases
+    allr = run_tasks(ctx, allc)
+    o = 0
+    cres = allr[o:o + len(ccases)]; o += len(ccases)
+    ares = allr[o:o + len(acases)]; o += len(acases)
+    nres = allr[o:o + len(ncases)]; o += len(ncases)
+    gres = allr[o:o + len(gcases)]; o += len(gcases)
+    mres = allr[o:]
+
+    def prop(kindname, cases, results, checker, sigf):
+        nonlocal nprop
+        for k, (c, r) in enumerate(zip(cases, results)):
+            ctx.count((kindname, k))
+            bad = checker(c, r)
+            if bad:
+                nprop += 1
+                ctx.report('impl:%s:%s' % (kindname, sigf(c, bad)), '%s: %s' % (kindname, bad[1]),
+                           {'case': strip(c), 'impl': r, 'how': 'harness/impl/c12_driver.py task kind %s' % c['kind']})
+    prop('constant-driver', ccases, cres, check_const_property, lambda c, b: b[0])
+    prop('adaptive-driver', acases, ares, check_adaptive_property, lambda c, b: b[0])
+    prop('newton', gcases, gres, check_newton_property, lambda c, b: b[0])
+    prop('method', mcases, mres, lambda c, r: check_method_property(c, r, methods), lambda c, b: '%s:%s' % (b[0], c['name']))
+    for k, (c, r) in enumerate(zip(ncases, nres)):
+        ctx.count(('newton-exact', k))
+        if r['status'] != 'Ok':
+            nprop += 1
+            ctx.report('impl:newton:raises-' + r['status'], 'newton raised %s on a scalar problem' % r.get('msg'),
+                       {'case': c, 'impl': r})
+
+    fams = [
+        ('C12_const', 'const_agrees', [(k, const_case_coq(c, r), None) for k, (c, r) in enumerate(zip(ccases, cres)) if r['status'] == 'Ok'],
+         ccases, cres, 'tie:constant-driver', '_constant_step_method returns times other than the model (t0 + k tau, ceil((t_end-t0)/tau) steps)'),
+        ('C12_adaptive', 'adaptive_agrees', [(k, adaptive_case_coq(c, r), None) for k, (c, r) in enumerate(zip(acases, ares)) if r['status'] == 'Ok'],
+         acases, ares, 'tie:adaptive-driver', '_adaptive_step_method visits step sizes / returns times other than the state-machine model run on the same error ratios'),
+        ('C12_newton', 'newton_agrees', [(k, newton_exact_coq(c, r), None) for k, (c, r) in enumerate(zip(ncases, nres)) if r['status'] == 'Ok'],
+         ncases, nres, 'tie:newton', 'newton returns a different point / raises differently than the model on an exactly representable scalar problem'),
+    ]
+    for prefix, fn, items, cs, rs, sig, text in fams:
+        if not items:
+            ctx.broken.append('no case for %s' % prefix)
+            continue
+        bad = coq_family(ctx, prefix, DRV_HEADER, fn, items, prefix)
+        for (k, txt, _) in bad[:3]:
+            ctx.broken.append('correspondence %s differs on case #%d' % (prefix, k))
+            ctx.report(sig, text, {'case': strip(cs[k]), 'impl': rs[k]}, found_input=True)
+        ctx.cov['disagreements_checked'] += len(bad)
+
+    # self-test of the differ: a perturbed implementation answer must be flagged
+    st_items = []
+    c0 = next((k for k, (c, r) in enumerate(zip(ccases, cres)) if r['status'] == 'Ok' and len(r['times']) > 2), None)
+    if c0 is not None:
+        r2 = dict(cres[c0]); r2['times'] = list(r2['times']); r2['times'][-1] += 0.5
+        st_items.append(('const_agrees', const_case_coq(ccases[c0], r2)))
+    n0 = next((k for k, r in enumerate(nres) if r['status'] == 'Ok' and not r['raised']), None)
+    if n0 is not None:
+        r2 = dict(nres[n0]); r2['x'] = r2['x'] + 2.0 ** -20
+        st_items.append(('newton_agrees', newton_exact_coq(ncases[n0], r2)))
+    a0 = next((k for k, r in enumerate(ares) if r['status'] == 'Ok' and not r.get('exhausted') and len(r['times']) > 1), None)
+    if a0 is not None:
+        r2 = dict(ares[a0]); r2['times'] = r2['times'][:-1]
+        st_items.append(('adaptive_agrees', adaptive_case_coq(acases[a0], r2)))
+    txt = DRV_HEADER + 'Eval vm_compute in [%s].\n' % '; '.join('%s %s' % (f, t) for f, t in st_items)
+    ok, out = ctx.coq_eval('C12_selftest', txt)
+    ctx.obligations += 1
+    if ok and 'true' not in out and out.count('false') == len(st_items) and st_items:
+        ctx.discharged += 1
+    else:
+        ctx.broken.append('self-test of the differ failed (perturbed answers not all rejected): %s' % out[-300:])
+
+    ctx.cov['traces_validated_against_impl'] = len(scases) + len(allc)
+    ctx.cov['property_failures_on_impl'] = nprop
+    ctx.cov['rule'] = ('one case = one call of dirk_step / rosenbrock_step / a driver / newton / a shipped method on a generated '
+                       'input; non-trivial = every case (each has >= 1 implicit stage or >= 1 driver iteration); distinct by index')
+    sdist.update({'const_driver': len(ccases), 'adaptive_driver': len(acases),
+                  'adaptive_exact_stream': sum(1 for c in acases if c['exact']),
+                  'newton_exact': len(ncases), 'newton_general': len(gcases), 'shipped_method_runs': len(mcases),
+                  'step_components_compared_with_model': len(step_items['dirk']) + len(step_items['ros']),
+                  'methods_skipped_in_runs_because_tableau_flagged': sorted(skip)})
+    ctx.cov['input_distribution'] = sdist
+    ctx.cov['exhaustive'] = False
+    ctx.cov['rounding_bounds'] = 'see module docstring; largest observed |impl-model|/bound in step ties: %.3g' % maxdev
+    ctx.cov['partial'] = ['adaptive_driver_terminates: not proved (see NOT PROVED comment in coq/C12/Props.v)',
+                          'order conditions: bounded (vm_compute on the 12 translated tables, regenerated every run), orders <= 4']
+    if scases:
+        ctx.sample({'step_case': strip(scases[0]), 'impl': {k: sres[0].get(k) for k in ('x_new', 'x_est', 'status')}})
+    if acases:
+        ctx.sample({'adaptive_case': {k: acases[0][k] for k in ('t0', 'tau0', 't_end', 'tol', 'step_factor', 'err_order')},
+                    'impl_times': ares[0].get('times')})
+    return ctx.finish()
+
+
+META = {
+    'technique': 'Rocq proofs (induction over the stage loop / driver loop / Newton loop, ring algebra) + source-to-Gallina '
+                 'translation of the coefficient tables re-proved by vm_compute on every run + differential execution '
+                 'against the rebuilt implementation',
+    'level_text': 'Theorems (Coq, unbounded, closed under the global context): for every number of stages, tableau, mass '
+                  'operator, right-hand side, step size and stage solver, dirk_step returns stages with M y_i = M x + tau '
+                  'sum_{j<=i} a_ij F(y_j) + r_i where r_i is the residual of the function handed to Newton '
+                  '(dirk_stage_equations, dirk_residual_is_newton_residual), the update/embedded/stiffly-accurate-shortcut '
+                  'equations and F_x_new = F(x_new) (dirk_update_equation, dirk_embedded_equation, '
+                  'dirk_stiffly_accurate_shortcut), y\'=const advances by tau (sum b) M^-1 c '
+                  '(dirk_const_rhs_exact_iff_consistent); the same for rosenbrock_step (rosenbrock_stage_equations[_combined], '
+                  'rosenbrock_const_rhs); newton returns only points below max(atol, rtol |F(x0)|) which are the last '
+                  'evaluated point, else raises after maxiter iterates none of which met the tolerance (newton_result, '
+                  'newton_raises_otherwise); constant driver: one time per state, t0 + k tau, reaches t_end '
+                  '(constant_driver_*); adaptive driver, for every outcome sequence: times strictly increasing from t0 to '
+                  '>= t_end, only steps with r <= 1 accepted, times are partial sums of accepted steps, consecutive step '
+                  'sizes within [0.2, 5] (adaptive_driver_*). Bounded: the order conditions (rooted trees up to order 4, '
+                  'ROW form for Rosenbrock) of every shipped table for its documented order, main and embedded weights, '
+                  're-proved by vm_compute on the tables translated from the current solvers.py. Tie: run-time tables '
+                  'compared bit-exactly with the translated ones; one step compared with the Q model on diagonal systems '
+                  '(derived bound), drivers and newton compared exactly on dyadic streams; stage residuals, driver '
+                  'predicates and the Newton contract evaluated on the implementation with an exact-rational oracle.',
+    'level_note': 'Partial: termination of the adaptive loop is not proved; order conditions hold up to the stated rounding '
+                  'allowance of the literals, orders <= 4 only. Trusted: Coq kernel + vm_compute, translate/tableaux.py and '
+                  'tableaux_orders.json, the hand transcription of solvers.py into coq/C12/Model.v (validated by the '
+                  'correspondence run), harness generators and derived float bounds, numpy/scipy linear solves (only their '
+                  'residuals are checked).',
+}
